@@ -45,6 +45,12 @@ def main():
         CLAIMED.update(m.CLAIMED)
         for k in m.CLAIMED: PENDING.pop(k, None)
         PENDING.update(getattr(m, 'PENDING', {}))
+    # one JSON file per further property in tools/claims.d/: {"Cxx": {"text":..,"technique":..,"design_ref":..,"level_note":..(optional)}}
+    import glob
+    for f in sorted(glob.glob(os.path.join(ROOT, 'tools', 'claims.d', '*.json'))):
+        for k, v in json.load(open(f)).items():
+            CLAIMED[k] = (v['text'], v['technique'], v['design_ref']) + ((v['level_note'],) if v.get('level_note') else ())
+            PENDING.pop(k, None)
     checks = []
     for pid in sorted(CLAIMED):
         text, tech, ref = CLAIMED[pid][:3]
